@@ -276,6 +276,18 @@ class C06(Check):
                     res["cov"].add(f"{c}|mixed|generate-inplace")
                     log.add(i, c, op, bits)
                     continue
+                if op == "pair":
+                    # two words the checker accepts must differ in at least d positions (the replayable form of a min-distance violation: a codeword and
+                    # its accepted neighbour)
+                    wa, _, wb = bits.partition("/")
+                    res["evals"] += 1
+                    ops_at[0] = i
+                    if wa != wb and cls.check(bitarray(wa)) and cls.check(bitarray(wb)):
+                        dist = sum(x != y for x, y in zip(wa, wb))
+                        if dist < d:
+                            fail("C06.min-distance", c, f"call #{i}: {c}.check accepts {wa} and {wb}, which differ in {dist} < {d} positions", None)
+                    log.add(i, c, op, bits)
+                    continue
                 if bits.startswith("cw:"):
                     parts = bits.split(":")
                     wd = bitarray(cls.generate(bitarray(parts[1])).tolist())
@@ -404,7 +416,7 @@ class C06(Check):
                         res["evals"] += 1
                         where = "data" if all(i < k for i in p) else ("parity" if all(i >= k for i in p) else "both")
                         if cls.check(rx):
-                            fail("C06.min-distance", c, f"{c}: codeword {cw.to01()} with {w} inverted bits {list(p)} is accepted (distance < {d})", [[c, "check", rx.to01()]])
+                            fail("C06.min-distance", c, f"{c}: codeword {cw.to01()} with {w} inverted bits {list(p)} is accepted (distance < {d})", [[c, "pair", cw.to01() + "/" + rx.to01()]])
                         if ham and w == 1:
                             ok, rep = cls.check_and_correct(rx.copy())
                             if not ok or rep != cw:
